@@ -81,7 +81,20 @@ fn vals_of_call(cc: &Covercrypt, msk: &Mutex<MasterSecretKey>, mpk: &MasterPubli
             out.push(format!("VAL secret {}", hex(&*s))); out.push(format!("VAL nonce {}", hex(&h.encrypted_metadata.clone().unwrap()[..12])));
             if cc.encaps(mpk, &ap("D::zz")).is_ok() { return Err("encapsulation for an unknown attribute succeeded".into()); }
             let (s, e) = cc.encaps(mpk, &ap("D::a")).map_err(|e| e.to_string())?; let b = e.serialize().unwrap();
-            out.push(format!("VAL secret {}", hex(&*s))); out.push(format!("VAL tag {}", hex(&b[..16]))); }
+            out.push(format!("VAL secret {}", hex(&*s))); out.push(format!("VAL tag {}", hex(&b[..16])));
+            // refused OPENINGS (other authentication data, an altered ciphertext, a truncated one) by an authorized key: each is an
+            // ordinary error, and the legitimate openings that follow on the same instance must succeed as they would alone
+            let u = { let mut m = msk.lock().unwrap(); cc.generate_user_secret_key(&mut m, &ap("D::a")).map_err(|e| e.to_string())? };
+            let (hs, h) = EncryptedHeader::generate(cc, mpk, &ap("D::a"), Some(b"metadata"), Some(b"right")).map_err(|e| e.to_string())?;
+            if h.decrypt(cc, &u, Some(b"wrong")).is_ok() { return Err("a header opened under other authentication data".into()); }
+            let ct = <Covercrypt as PkeAc<32, Aes256Gcm>>::encrypt(cc, mpk, &ap("D::a"), b"plaintext").map_err(|e| e.to_string())?;
+            let mut bad = ct.1.clone(); let l = bad.len(); bad[l - 1] ^= 1;
+            if <Covercrypt as PkeAc<32, Aes256Gcm>>::decrypt(cc, &u, &(ct.0.clone(), bad)).is_ok() { return Err("an altered PKE ciphertext was accepted".into()); }
+            if <Covercrypt as PkeAc<32, Aes256Gcm>>::decrypt(cc, &u, &(ct.0.clone(), ct.1[..5].to_vec())).is_ok() { return Err("a truncated PKE ciphertext was accepted".into()); }
+            match h.decrypt(cc, &u, Some(b"right")) { Ok(Some(c)) if *c.secret == *hs && c.metadata.as_deref() == Some(&b"metadata"[..]) => {}, Ok(_) => return Err("after refused openings, a legitimate header opening gives nothing or something else".into()), Err(e) => return Err(format!("after refused openings, a legitimate header opening fails: {e}")) }
+            match <Covercrypt as PkeAc<32, Aes256Gcm>>::decrypt(cc, &u, &ct) { Ok(Some(p)) if &*p == b"plaintext" => {}, Ok(_) => return Err("after refused openings, a legitimate decryption gives nothing or something else".into()), Err(e) => return Err(format!("after refused openings, a legitimate decryption fails: {e}")) }
+            let (s, e) = cc.encaps(mpk, &ap("D::a")).map_err(|e| format!("after refused openings, encapsulation fails: {e}"))?;
+            if cc.decaps(&u, &e).map_err(|e| e.to_string())? != Some(s) { return Err("after refused openings, own encapsulation does not decapsulate to the same secret".into()); } }
         6 => { let m = msk.lock().unwrap(); let cur = m.mpk().map_err(|e| e.to_string())?;
             let (s0, e0) = cc.encaps(&cur, &ap("D::a")).map_err(|e| e.to_string())?; let b0 = e0.serialize().unwrap();
             out.push(format!("VAL secret {}", hex(&*s0))); out.push(format!("VAL tag {}", hex(&b0[..16])));
@@ -286,6 +299,27 @@ fn main() {
                     Err(_) => println!("FAIL instance {ii} panicked"),
                 }
             }
+        }
+        // volume T N: T threads (eight instances shared among them, one public key), N broadcast-free encapsulations each; the
+        // secrets, tags and first traps of ALL calls are compared here (hundreds of thousands of values: a generator whose
+        // state or seed is narrower than it looks repeats itself only at volume)
+        Some("volume") => {
+            let t: usize = a[2].parse().unwrap(); let n: usize = a[3].parse().unwrap();
+            let c0 = Covercrypt::default(); let (_msk, mpk) = setup(&c0); let mpk = Arc::new(mpk);
+            let insts: Vec<Arc<Covercrypt>> = (0..8).map(|_| Arc::new(Covercrypt::default())).collect();
+            let hs: Vec<_> = (0..t).map(|i| { let cc = insts[i % 8].clone(); let mpk = mpk.clone(); std::thread::spawn(move || {
+                let mut v: Vec<(Vec<u8>, Vec<u8>, Vec<u8>)> = Vec::with_capacity(n); let pol = ap("D::a");
+                for _ in 0..n { match cc.encaps(&mpk, &pol) { Ok((s, e)) => { let b = e.serialize().unwrap(); v.push((s.to_vec(), b[..16].to_vec(), b[17..17 + PT].to_vec())); } Err(_) => break } }
+                v }) }).collect();
+            let mut sec = std::collections::HashMap::new(); let mut tag = std::collections::HashMap::new(); let mut trap = std::collections::HashMap::new();
+            let mut total = 0usize; let mut dups = 0usize;
+            for (ti, h) in hs.into_iter().enumerate() { match h.join() {
+                Ok(v) => { if v.len() != n { println!("FAIL volume thread {ti}: only {} of {n} encapsulations succeeded", v.len()); }
+                    for (ci, (s, g, p)) in v.into_iter().enumerate() { total += 1;
+                        for (kind, m, x) in [("secret", &mut sec, s), ("tag", &mut tag, g), ("trap", &mut trap, p)] {
+                            if let Some((t0, c0)) = m.insert(x.clone(), (ti, ci)) { dups += 1; if dups <= 5 { println!("DUPV {kind} {} calls {t0}.{c0} and {ti}.{ci}", hex(&x)); } } } } }
+                Err(_) => println!("FAIL volume thread {ti} panicked") } }
+            println!("VOLUME {total} {} {} {}", sec.len(), tag.len(), trap.len());
         }
         _ => println!("usage"),
     }
